@@ -2007,6 +2007,13 @@ def unit_zipdate(inj, scratch):
     return dict(functions=[r], dropped=[d], assumptions=['the calendar shim has the semantics chrono documents: from_ymd_opt / and_hms_opt / with_year / with_month / with_day / with_hour / with_minute / with_second return None exactly when the resulting date or time of day does not exist (proleptic Gregorian calendar; leap seconds not modelled); NaiveDateTime::default() is 1970-01-01 00:00:00'])
 
 
+def unit_fms(inj, scratch):
+    rel = 'src/searcher.rs'
+    s = src(rel, scratch)
+    inj.append(rel, H('fms.kani.rs'))
+    return dict(functions=[fn_record(s, 'clear', 'K', impl='FileMetadataState', how='whole real function; postcondition asserted in an appended harness over every combination of the six flags')], dropped=[])
+
+
 def unit_wbuf(inj, scratch):
     rel = 'src/util/wbuf.rs'
     s = src(rel, scratch)
